@@ -29,7 +29,7 @@ ASSUMPTIONS = [
   "sleep states are written directly into Data.body_awake after kinematics (tree-consistent), not produced by stepping",
   "collision_primitive's process-global dispatch list (finding F6, property C36) is pinned per case",
 ]
-BUDGET = {"quick": 150, "thorough": 1500}
+BUDGET = {"quick": 450, "thorough": 2400}
 
 FIELDS = ("geom", "dist", "pos", "frame", "includemargin", "friction", "solref", "solreffriction", "solimp", "dim", "type")
 BITS = {1: "PLANE", 2: "SPHERE", 4: "AABB", 8: "OBB"}
